@@ -448,7 +448,8 @@ def assemble (mant : Nat) (exp : Int) (neg : Bool) : Nat :=
 
 /-- what the scaling part of `floatBits` hands to the rounding part -/
 inductive Prep
-  | early (r : Nat × Bool)            -- zero, obvious overflow / underflow, exponent overflow
+  | early (r : Nat × Bool)            -- zero, obvious overflow / underflow
+  | expOverflow (a : Decimal)         -- the exponent is too large once `a` has been scaled into [1/2, 1)
   | ready (a : Decimal) (exp : Int)   -- `a` after `a.Shift(1 + mantbits)`, binary exponent `exp`
 
 /-- `floatBits()` up to and including `a.Shift(int(1 + flt.mantbits))`; `none` = panic / fuel -/
@@ -478,7 +479,7 @@ def Decimal.prepare (a : Decimal) : Option Prep :=
         match r with
         | none => none
         | some (a, exp) =>
-          if exp - bias ≥ (2^expbits : Nat) - 1 then some (.early overflow)
+          if exp - bias ≥ (2^expbits : Nat) - 1 then some (.expOverflow a)
           else
             match a.shift (1 + mantbits : Nat) with
             | none => none
@@ -500,11 +501,21 @@ def Decimal.finish (a : Decimal) (exp : Int) : Nat × Bool :=
     let exp := if mant &&& (1 <<< mantbits) == 0 then bias else exp
     (assemble mant exp a.neg, false)
 
+/-- did the multiprecision conversion run without ever dropping a non-zero digit? (the `trunc` flag of the decimal that
+    reached the rounding step; the flag never goes back down) -/
+def Decimal.exactRun (a : Decimal) : Bool :=
+  match a.prepare with
+  | some (.ready a' _) => !a'.trunc
+  | some (.expOverflow a') => !a'.trunc
+  | some (.early _) => !a.trunc
+  | none => false
+
 /-- `floatBits()`: `(bits, overflow)`; `none` = panic / fuel -/
 def Decimal.floatBits (a : Decimal) : Option (Nat × Bool) :=
   match a.prepare with
   | none => none
   | some (.early r) => some r
+  | some (.expOverflow a') => some (assemble 0 ((2^Gen.fpExpBits : Nat) - 1 + Gen.fpBias) a'.neg, true)
   | some (.ready a' exp) => some (a'.finish exp)
 
 /-! ## ParseJSONFloatPrefix -/
